@@ -1,15 +1,77 @@
 """C15 — The stored form of a syntax tree restores an identical tree.
 
-Serialization.__dumps / __loads recurse over third-party lark objects and heterogeneous dicts; bringing them into the VC
-subset would mean replacing most of their statements by assumed readings, i.e. proving a model.  The contract is therefore
-checked at run time by a bounded, partly exhaustive twin (labelled bounded; nothing here is counted as proved).
+Proved (VC) over lark entries and stored entries as opaque identities with observers (kind, name, value, children, recorded
+positions): EntryOfLark.source_map reports `span_view`; Serialization.__dumps produces the stored form (`stored_as`: name,
+value, the span the view reports incl. the (0,0,0,0) fallbacks, children pointwise, None slots); Serialization.__loads builds
+an entry with exactly the stored data (`restored_as`); and, by induction over the tree (lemma), what is loaded from the stored
+form of an entry looks the same through EntryOfLark as the entry itself (`same_view`).
+Bounded (labelled, never counted as proved): the same statement on real lark objects through the JSON text, exhaustively for
+small trees and on real parse trees (this also validates the observer reading of lark.Tree / Token / Meta).
 """
-LEVEL = 'exploration'
+from __future__ import annotations
+from pyvc.api import contract, lemma, Loop
+from specs.larkspec import ENTRY
+import specs.larkspec  # noqa: F401
+
+LEVEL = 'proof'
 RULE = ('contract V(EntryOfLark(loads(json(dumps(T))))) == V(EntryOfLark(T)) evaluated on (a) every lark tree with <= 4 nodes (5 in the thorough tier) over '
 	'6 leaf kinds (tokens with multi-line / unset / zero / empty-value positions, None placeholders), 2 rule names and 3 meta variants (empty, multi-line, one-line) '
 	'and (b) real parse trees of fixed snippets and repository modules; a case is non-trivial if its view is distinct (hash of the full view)')
-TRUSTED_BASE = ['lark.Tree / lark.Token / lark.tree.Meta attribute semantics', 'json round trip (tuples become lists)']
-ASSUMPTIONS = ['bounded: trees beyond the enumerated size and parse shapes not in the sample are not covered']
+TRUSTED_BASE = ['lark.Tree / lark.Token / lark.tree.Meta attribute semantics as observers (kind, data/type, value, children, meta usable, positions; unset positions read as 0: the code only tests their truthiness)',
+	'json round trip (tuples become lists) preserves the stored data']
+ASSUMPTIONS = ['dict literals / lark constructors are read as constructors of the abstract stored / lark entry (statement rewrites listed in the evidence); finite trees (height functions)',
+	'EntryStored.save / load (file and json plumbing) assumed; the bounded twin runs the real objects through the JSON text']
+
+E = 'self.__entry'
+EOL = {f'type({E}) is lark.Tree': f'le_kind({E}) == 1', f'type({E}) is lark.Token': f'le_kind({E}) == 2', f'{E} is None': f'le_kind({E}) == 0',
+	f'{E}.data': f'le_data({E})', f'{E}.type': f'le_data({E})', f'{E}.value': f'le_value({E})', f'{E}.children': f'le_children({E})',
+	f'type({E}) is lark.Tree and {E}.meta is not None and (not {E}.meta.empty)': f'le_kind({E}) == 1 and le_meta_ok({E})',
+	f'type({E}) is lark.Token and {E}.line and {E}.column and {E}.end_line and {E}.end_column': f'le_kind({E}) == 2 and le_pos({E})[0] != 0 and le_pos({E})[1] != 0 and le_pos({E})[2] != 0 and le_pos({E})[3] != 0',
+	f'{E}.meta.line': f'le_pos({E})[0]', f'{E}.meta.column': f'le_pos({E})[1]', f'{E}.meta.end_line': f'le_pos({E})[2]', f'{E}.meta.end_column': f'le_pos({E})[3]',
+	f'{E}.line': f'le_pos({E})[0]', f'{E}.column': f'le_pos({E})[1]', f'{E}.end_line': f'le_pos({E})[2]', f'{E}.end_column': f'le_pos({E})[3]'}
+
+contract(ENTRY, 'EntryOfLark.source_map', 'C15', types={'self': 'EntryOfLark', 'return': 'dict[str, tuple[int, int]]'}, rewrites=EOL,
+	ensures=["'begin' in result", "'end' in result",
+		# the reported span is the recorded one when it is usable and (0, 0)-(0, 0) otherwise
+		"result['begin'] == (span_view(self.__entry)[0], span_view(self.__entry)[1])", "result['end'] == (span_view(self.__entry)[2], span_view(self.__entry)[3])"])
+for _p, _t in [('name', 'str'), ('has_child', 'bool'), ('is_terminal', 'bool'), ('value', 'str'), ('is_empty', 'bool'), ('source', 'LE')]:
+	contract(ENTRY, f'EntryOfLark.{_p}', 'C15', types={'self': 'EntryOfLark', 'return': _t}, rewrites={**EOL, 'self.empty_name': "'__empty__'"}, inline_only=True)
+contract(ENTRY, 'EntryOfLark.children', 'C15', types={'self': 'EntryOfLark', 'return': 'list[EntryOfLark]', 'in_entry': 'LE'}, rewrites=EOL,
+	stmt_rewrites={'return [EntryOfLark(in_entry) for in_entry in self.__entry.children] if type(self.__entry) is lark.Tree else []':
+		'out: list[EntryOfLark] = []\nif le_kind(self.__entry) == 1:\n\tfor in_entry in le_children(self.__entry):\n\t\tout.append(EntryOfLark(in_entry))\nreturn out'},
+	loops={0: Loop(invariant=['0 <= _i', '_i <= len(_seq)', '_seq == le_children(self.__entry)', 'len(out) == _i', 'all(out[j].__entry == _seq[j] for j in range(_i))'])},
+	ensures=['implies(le_kind(self.__entry) != 1, len(result) == 0)',
+		'implies(le_kind(self.__entry) == 1, len(result) == len(le_children(self.__entry)) and all(result[i].__entry == le_children(self.__entry)[i] for i in range(len(result))))'])
+
+contract(ENTRY, 'Serialization.__dumps', 'C15', types={'entry': 'LE', 'return': 'DE', 'children': 'list[DE]', 'child': 'EntryOfLark', 'proxy': 'EntryOfLark'},
+	stmt_rewrites={"return {'name': proxy.name, 'children': children, 'source_map': source_map}": 'return mk_dtree(proxy.name, children, source_map)',
+		"return {'name': proxy.name, 'value': proxy.value, 'source_map': source_map}": 'return mk_dtoken(proxy.name, proxy.value, source_map)',
+		'return None': 'return de_none()'},
+	# Top (first half): the stored form records exactly what the view of the entry shows
+	ensures=['stored_as(entry, result)'],
+	loops={0: Loop(invariant=['0 <= _i', '_i <= len(_seq)', 'le_kind(entry) == 1', 'len(_seq) == len(le_children(entry))', 'all(_seq[j]._EntryOfLark__entry == le_children(entry)[j] for j in range(len(_seq)))',
+		'len(children) == _i', 'all(stored_as(le_children(entry)[j], children[j]) for j in range(_i))', 'proxy._EntryOfLark__entry == entry'])})
+
+contract(ENTRY, 'Serialization.__loads', 'C15', types={'entry': 'DE', 'return': 'LE', 'children': 'list[LE]', 'child': 'DE', 'entry_tree': 'DE', 'entry_token': 'DE', 'meta': 'LMeta', 'token': 'LTokenB'},
+	rewrites={"type(entry) is dict and 'children' in entry": 'de_kind(entry) == 1', "type(entry) is dict and 'value' in entry": 'de_kind(entry) == 2',
+		"cast(list[DumpTreeEntry], entry_tree['children'])": 'de_children(entry_tree)',
+		"entry_tree['source_map']": 'de_sm(entry_tree)', "entry_tree['name']": 'de_name(entry_tree)',
+		"entry_token['source_map']": 'de_sm(entry_token)', "entry_token['name']": 'de_name(entry_token)', "entry_token['value']": 'de_value(entry_token)',
+		'lark.tree.Meta()': 'new_meta()', "lark.Token(entry_token['name'], entry_token['value'])": 'new_token(de_name(entry_token), de_value(entry_token))',
+		"lark.Tree(entry_tree['name'], children, meta)": 'tree_of(de_name(entry_tree), children, meta)'},
+	stmt_rewrites={'entry_tree = cast(DumpTree, entry)': 'entry_tree = entry', 'entry_token = cast(DumpToken, entry)': 'entry_token = entry',
+		'return token': 'return token_of(token)', 'return None': 'return le_none()'},
+	# Top (second half): loading builds an entry that carries exactly the stored data, position by position, child by child
+	ensures=['restored_as(entry, result)'],
+	loops={0: Loop(invariant=['0 <= _i', '_i <= len(_seq)', '_seq == de_children(entry)', 'de_kind(entry) == 1', 'entry_tree == entry', 'len(children) == _i',
+		'all(restored_as(de_children(entry)[j], children[j]) for j in range(_i))'])})
+
+
+@lemma('C15', requires=['stored_as(e, d)', 'restored_as(d, e2)'], ensures=['same_view(e, e2)'], decreases='le_hgt(e)')
+def lemma_roundtrip(e: LE, d: DE, e2: LE):
+	"""Top: the entry loaded from the stored form of e looks like e through EntryOfLark (induction over the tree)."""
+	if le_kind(e) == 1:
+		all(lemma_roundtrip(le_children(e)[i], de_children(d)[i], le_children(e2)[i]) for i in range(len(le_children(e))))
 
 
 def extra_checks(tier, seed, active_known):
